@@ -209,6 +209,30 @@ Example C09_roundtrip_twcc_nonvacuous :
 Proof. vm_compute. reflexivity. Qed.
 Print Assumptions C09_roundtrip_twcc_nonvacuous.
 
+(* The complete round trip ("exactly what was recorded"): syms = the statuses the builder was
+   fed.  The adapter returns one entry per status plus fewer than 7 for the padding of the last
+   chunk; every recorded arrival is acknowledged at its offset within 125 us
+   ([arrival_ack h base acks k s t]: entry k is the history record of s = base + k with an arrival
+   time within 125 us of t, or the zero value when s is not in the history); and EVERY offset
+   below the status count is either such a recorded arrival or reads "not received" (the history
+   record unchanged): no phantom arrivals, no arrival dropped. *)
+Theorem C09_roundtrip_twcc_exact : forall b t0 tr f sender media fbc h,
+  0 <= b < 65536 -> 0 <= Z.quot t0 64000 < 16777216 ->
+  Forall (fun e : Z * Z => 0 <= fst e < 65536) tr ->
+  fb_adds (fb_new b t0) tr = Some f ->
+  let p := fb_get_rtcp sender media fbc f in
+  exists syms acks k7,
+    fb_inv f syms /\ (k7 < 7)%nat /\
+    on_twcc h (p_base p) (p_ref p) (map chunk_of_wire (p_chunks p)) (map snd (p_deltas p)) = Some acks /\
+    length acks = (length syms + k7)%nat /\
+    Forall (fun e : Z * Z => exists k, arrival_ack h (p_base p) acks k (fst e) (snd e)) tr /\
+    forall k, (k < length syms)%nat ->
+      (exists s t, In (s, t) tr /\ arrival_ack h (p_base p) acks k s t) \/
+      nth k acks zero_ack =
+        match hget h 0 ((p_base p + Z.of_nat k) mod 65536) with Some a => a | None => zero_ack end.
+Proof. exact roundtrip_twcc_exact. Qed.
+Print Assumptions C09_roundtrip_twcc_exact.
+
 (* End to end with the adapter's own bounded history: after ANY operation list, one more
    step feeding such a feedback returns no error and acknowledges, for every recorded arrival
    (s, t), the most recent send with TWCC number s among the 250 most recently sent distinct
@@ -248,6 +272,27 @@ Theorem C09_roundtrip_twcc_recorder : forall sender ops ps p h,
            nth k acks zero_ack = match hget h 0 s with Some a => set_arr a T | None => zero_ack end) tr).
 Proof. exact roundtrip_twcc_recorder. Qed.
 Print Assumptions C09_roundtrip_twcc_recorder.
+
+(* ... and the arrivals tr a packet of the i-th build round-trips are received entries
+   (sequence number mod 2^16, arrival time >= 0) of the recorder's arrival map in the state
+   in which that build ran ([rec_states]); which entries a packet must contain is C05's
+   C05_build_packet_partial *)
+Theorem C09_roundtrip_twcc_recorder_map : forall sender ops i p h,
+  (i < length (IV.Model.TwccRecorder.rec_run sender IV.Model.TwccRecorder.rec_init ops))%nat ->
+  In p (nth i (IV.Model.TwccRecorder.rec_run sender IV.Model.TwccRecorder.rec_init ops) []) ->
+  let m := IV.Model.TwccRecorder.r_map (nth i (rec_states sender IV.Model.TwccRecorder.rec_init ops) IV.Model.TwccRecorder.rec_init) in
+  exists t0 tr,
+    tr <> [] /\ snd (hd (0, 0) tr) = t0 /\ Forall (map_arrival m) tr /\
+    (t0 < 16777216 * 64000 ->
+     exists acks,
+       on_twcc h (p_base p) (p_ref p) (map chunk_of_wire (p_chunks p)) (map snd (p_deltas p)) = Some acks /\
+       Forall (fun e : Z * Z =>
+         let '(s, t) := e in
+         exists k T, (k < length acks)%nat /\ (p_base p + Z.of_nat k) mod 65536 = s /\
+           Z.abs (T - t * 1000) <= 125000 /\
+           nth k acks zero_ack = match hget h 0 s with Some a => set_arr a T | None => zero_ack end) tr).
+Proof. exact roundtrip_twcc_recorder_map. Qed.
+Print Assumptions C09_roundtrip_twcc_recorder_map.
 
 (* TWCC feedback of the C05 builder decoded by pkg/rtpfb's convertTWCC: exactly one
    acknowledgement per status below the count (the padding of the last chunk yields none),
@@ -303,6 +348,35 @@ Theorem C09_roundtrip_rfc8888 : forall atok, IV.Proofs.Rfc8888Proofs.exact_kerne
     end) r.
 Proof. exact IV.Proofs.FbRoundTrip8888.roundtrip_rfc8888_build. Qed.
 Print Assumptions C09_roundtrip_rfc8888.
+
+(* the same block decoded by pkg/rtpfb's convertCCFB: one acknowledgement per number of the
+   block's range, (number mod 2^16, arrived, rt - floor-to-1/1024 s of (ref - ts), ECN) for
+   the numbers in the log - the zero time when the offset is 0x1FFF - and "not arrived" for the
+   others ([stream_fack]) *)
+Theorem C09_roundtrip_rfc8888_rtpfb_block : forall atok, IV.Proofs.Rfc8888Proofs.exact_kernel atok ->
+  forall rt s ref budget,
+  IV.Model.StreamLog.sl_log s <> [] ->
+  let b := snd (IV.Model.StreamLog.metrics_after atok s ref budget) in
+  fst (fst b) = IV.Model.StreamLog.sl_ssrc s /\
+  convert_mblocks rt (snd (fst b)) (snd b) =
+  map (IV.Proofs.FbRoundTrip8888.stream_fack rt ref (IV.Proofs.StreamLogProofs.trunc_log s budget))
+      (zrange (IV.Proofs.StreamLogProofs.trunc_next s budget) (IV.Proofs.StreamLogProofs.range_cnt s budget)).
+Proof. exact IV.Proofs.FbRoundTrip8888.roundtrip_rfc8888_rtpfb_block. Qed.
+Print Assumptions C09_roundtrip_rfc8888_rtpfb_block.
+
+(* ... and the whole report of BuildReport in EVERY recorder state reachable by AddPacket /
+   BuildReport / metricsAfter calls, through convertCCFB: one entry per stream (the streams'
+   SSRCs are distinct, so no block is dropped), each with the acknowledgements above *)
+Theorem C09_roundtrip_rfc8888_rtpfb : forall atok, IV.Proofs.Rfc8888Proofs.exact_kernel atok ->
+  forall rt ops now maxSize r' rep,
+  let r := IV.Proofs.FbRoundTrip8888.rec_final atok [] ops in
+  IV.Model.Rfc8888Recorder.rec_build atok r now maxSize = (r', rep) ->
+  convert_ccfb rt rep =
+  map (fun ks : Z * IV.Model.StreamLog.slog =>
+         IV.Proofs.FbRoundTrip8888.stream_facks rt now
+           (IV.Model.Rfc8888Recorder.per_stream_budget maxSize (Z.of_nat (length r))) (snd ks)) r.
+Proof. exact IV.Proofs.FbRoundTrip8888.roundtrip_rfc8888_rtpfb_build. Qed.
+Print Assumptions C09_roundtrip_rfc8888_rtpfb.
 
 (* the time: read back against the reference it was built with, the arrival is in
    [ts, ts + 1/1024 s] for every arrival inside the representable offset range *)
@@ -367,3 +441,76 @@ Proof.
   - cbn. constructor; [intros []|constructor].
 Qed.
 Print Assumptions C09_fb_oracle_iff_nonvacuous.
+
+(* Soundness of the cc run-time oracle (cc_spec_failures = cc_case_codes per case).  If it
+   reports nothing but the pinned known findings 12 (F12), 13 (F13), 15, 16 for a case, then
+   every TWCC feedback of the case which the implementation answered with at least one entry
+   per status symbol (ops1 = the operations before it, r = the implementation's answer) was
+   answered without error, with exactly one entry per symbol, and every entry below
+   PacketStatusCount is position semantics (decode_at) applied to the 250 most recently sent
+   distinct packets at that point of the history (= the model's history,
+   C09_history_is_recent_250). *)
+From IV Require Proofs.C09OracleCc.
+Theorem C09_cc_oracle_sound_twcc : forall (c : IV.Check.C09Check.cc_case) ops1 base count ref24 cs ds ops2,
+  let '(cops, errs, outs0) := c in
+  let outs := map IV.Check.C09Check.unflat_out outs0 in
+  flat_map IV.Check.C09Check.expand cops = ops1 ++ FbTwcc base count ref24 cs ds :: ops2 ->
+  Forall IV.Proofs.C09OracleCc.known_case_code (IV.Check.C09Check.cc_case_codes c) ->
+  0 <= base < 65536 ->
+  (ndeltas (firstn (Z.to_nat count) (symbols cs)) <= length ds)%nat ->
+  (IV.Proofs.C09OracleCc.nfb ops1 < length outs)%nat ->
+  let r := nth (IV.Proofs.C09OracleCc.nfb ops1) outs (0, []) in
+  (length (symbols cs) <= length (snd r))%nat ->
+  fst r = 0 /\ length (snd r) = length (symbols cs) /\
+  forall k, (k < length (symbols cs))%nat -> Z.of_nat k < count ->
+    nth k (snd r) zero_ack =
+    decode_at (hget (recent 250 (send_log ops1 [])) 0 ((base + Z.of_nat k) mod 65536)) ref24 (symbols cs) ds k.
+Proof. exact IV.Proofs.C09OracleCc.cc_case_sound_twcc. Qed.
+Print Assumptions C09_cc_oracle_sound_twcc.
+
+(* ... and every RFC 8888 feedback of such a case was answered with exactly the per-block,
+   per-metric-block acknowledgements of C09_rfc8888 for that history *)
+Theorem C09_cc_oracle_sound_rfc8888 : forall (c : IV.Check.C09Check.cc_case) ops1 ts bs ops2,
+  let '(cops, errs, outs0) := c in
+  let outs := map IV.Check.C09Check.unflat_out outs0 in
+  flat_map IV.Check.C09Check.expand cops = ops1 ++ FbCcfb ts bs :: ops2 ->
+  Forall IV.Proofs.C09OracleCc.known_case_code (IV.Check.C09Check.cc_case_codes c) ->
+  Forall (fun b : rblock => 0 <= snd (fst b) < 65536) bs ->
+  (IV.Proofs.C09OracleCc.nfb ops1 < length outs)%nat ->
+  let r := nth (IV.Proofs.C09OracleCc.nfb ops1) outs (0, []) in
+  fst r = 0 /\
+  snd r = flat_map (fun b : rblock => let '(ssrc, begin, mbs) := b in
+                      ccfb_spec (recent 250 (send_log ops1 [])) (IV.Check.C09Check.reft ts) ssrc begin 0 mbs) bs.
+Proof. exact IV.Proofs.C09OracleCc.cc_case_sound_ccfb. Qed.
+Print Assumptions C09_cc_oracle_sound_rfc8888.
+
+(* No false alarms: on the MODEL's own outputs the cc oracle reports nothing but the pinned
+   known findings (12 F12, 13/14 F13, 15, 16), for every well-formed operation list (positive
+   packet sizes; TWCC feedback with 16-bit base, non-negative run lengths and the delta count
+   rtcp.Unmarshal produces, [tlcc_wfb]).  Together with the differential check (implementation
+   = model on every case) a violation reported by cc_spec_failures is a deviation of the
+   model-conforming implementation from the specification, never an artefact of the oracle. *)
+From IV Require Proofs.C09OracleCcComplete.
+Theorem C09_cc_oracle_no_false_alarm : forall ops,
+  Forall IV.Proofs.C09OracleCcComplete.wf_cc_op ops ->
+  Forall IV.Proofs.C09OracleCcComplete.known5
+    (IV.Check.C09Check.nodup_nat
+       (IV.Check.C09Check.cc_walk [] ops
+          (IV.Check.C09Check.fb_outs ops (run IV.Check.C09Check.reft [] ops)))).
+Proof. exact IV.Proofs.C09OracleCcComplete.cc_model_case_known. Qed.
+Print Assumptions C09_cc_oracle_no_false_alarm.
+
+Example C09_cc_oracle_nonvacuous :
+  let ops := [Sent 5 (Some 10) 0 0 12 1000 5; Sent 5 (Some 11) 0 1 12 1001 6;
+              FbTwcc 10 2 1 [SV [1; 1; 0; 0; 0; 0; 0]] [1000; 5000]; Sent 0 None 9 100 12 900 7;
+              FbCcfb 3 [(9, 100, [(true, 1, 5)])]] in
+  Forall IV.Proofs.C09OracleCcComplete.wf_cc_op ops /\
+  IV.Check.C09Check.nodup_nat
+    (IV.Check.C09Check.cc_walk [] ops (IV.Check.C09Check.fb_outs ops (run IV.Check.C09Check.reft [] ops)))
+  = [13%nat].
+Proof.
+  cbv zeta. split; [|vm_compute; reflexivity].
+  repeat (apply Forall_cons || apply Forall_nil); cbn [IV.Proofs.C09OracleCcComplete.wf_cc_op]; try lia; try exact I.
+  split; [lia|]. split; [repeat constructor|vm_compute; reflexivity].
+Qed.
+Print Assumptions C09_cc_oracle_nonvacuous.
